@@ -149,6 +149,26 @@ func TestQuota(t *testing.T) {
 		cfg.CBW, cfg.CBH, cfg.Levels, cfg.PW, cfg.PH = 64, 64, rapid.IntRange(0, 2).Draw(t, "lv"), 0, 0
 		return &Case{Img: im, Cfg: cfg}
 	})
+	// several code-blocks in the LL band together with a resolution-0 precinct of one sample
+	// (a custom precinct size of 32 / 64 scaled down over 5 / 6 levels gives exponent 0 there):
+	// needs an image wider than code-block x 2^levels
+	q["LL-multiblock&precinct-exponent0"] = rapid.Custom(func(t *rapid.T) *Case {
+		lv := rapid.IntRange(5, 6).Draw(t, "lv")
+		pw := 32
+		if lv == 6 && rapid.Bool().Draw(t, "p64") {
+			pw = 64
+		}
+		cbw, cbh := rapid.SampledFrom([]int{4, 4, 8}).Draw(t, "cbw"), rapid.SampledFrom([]int{4, 4, 8}).Draw(t, "cbh")
+		im := &gen.Image{W: rapid.IntRange(cbw<<uint(lv)+1, 330).Draw(t, "w"), H: rapid.IntRange(40, 200).Draw(t, "h"), C: rapid.SampledFrom([]int{1, 1, 3}).Draw(t, "c"),
+			P: rapid.SampledFrom([]int{8, 12}).Draw(t, "P"), Class: "noise", Seed: rapid.Uint64().Draw(t, "seed")}
+		if rapid.Bool().Draw(t, "swap") {
+			im.W, im.H = im.H, im.W
+			cbw, cbh = cbh, cbw
+		}
+		cfg := j2k.ConfigGen().Draw(t, "cfg")
+		cfg.CBW, cfg.CBH, cfg.Levels, cfg.PW, cfg.PH = cbw, cbh, lv, pw, pw
+		return &Case{Img: im, Cfg: cfg}
+	})
 	core.RunQuota(t, ID, q, Check)
 }
 
